@@ -573,13 +573,60 @@ UNWRAPS = ("std::result::Result::<T, E>::unwrap_or_else", "std::result::Result::
 OPTION_FALLBACK = ("std::option::Option::<T>::or_else", "std::option::Option::<T>::or")
 
 
+def _const_rows(op):
+    """[(literal, Format variant)] when a constant operand is a decoded table of (&str, Format) rows."""
+    d = op.get("decoded") if isinstance(op, dict) else None
+    if not d or "seq" not in d:
+        return None
+    rows = []
+    for r in d["seq"]:
+        t = r.get("tuple")
+        if not t or len(t) != 2 or "str" not in t[0] or t[1].get("adt") != "xt::Format":
+            return None
+        rows.append((t[0]["str"], t[1]["variant"]))
+    return rows or None
+
+
+def _lookup_table(binc, b):
+    """(rows, const operand site) when `b` looks its answer up in a constant table of (&str, Format) rows."""
+    for bi, blk in enumerate(b.blocks):
+        ops = []
+        for s_ in blk["stmts"]:
+            if s_["k"] == "assign" and s_["rv"]["k"] == "use":
+                ops.append(s_["rv"]["op"])
+        if blk["term"]["k"] == "call":
+            ops += blk["term"]["args"]
+        for o in ops:
+            rows = _const_rows(o) if o.get("k") == "const" else None
+            if rows:
+                return rows, bi
+    return None, None
+
+
 def _extension_fn(binc):
+    """[(body, {literal: Format variant}, default, form)]: the extension lookup, written as a match over string
+    literals (form 'match') or as a search through a constant table of (&str, Format) rows (form 'lookup')."""
     cands = []
     for b in binc.bodies:
         if b.local_ty(0) == "std::option::Option<xt::Format>" and b.raw["def_kind"] in ("Fn", "AssocFn"):
             table, default = format_table(binc, b)
             if table:
-                cands.append((b, table, default))
+                cands.append((b, table, default, "match"))
+                continue
+            rows, _ = _lookup_table(binc, b)
+            if rows:
+                tb = {}
+                dup = False
+                for lit, var in rows:
+                    dup = dup or lit in tb
+                    tb.setdefault(lit, var)
+                # the answer for an unknown extension: nothing in the function (or its closures) builds a
+                # Format of its own, and no fallback combinator supplies one
+                bodies = [b] + list(binc.closures_of(b))
+                own = any(s_["k"] == "assign" and s_["rv"]["k"] == "aggregate" and s_["rv"].get("adt") == "xt::Format" for x in bodies for blk in x.blocks for s_ in blk["stmts"])
+                own = own or any(o.get("k") == "const" and o.get("ty") == "xt::Format" for x in bodies for blk in x.blocks for s_ in blk["stmts"] if s_["k"] == "assign" and s_["rv"]["k"] == "use" for o in [s_["rv"]["op"]])
+                fb = any((fn_of(t) or {}).get("name", "").startswith("unwrap_or") or (fn_of(t) or {}).get("name") in ("or", "or_else", "map_or", "map_or_else") for x in bodies for _, t in x.calls())
+                cands.append((b, tb, "None" if not own and not fb and not dup else "?", "lookup"))
     return cands
 
 
@@ -729,12 +776,75 @@ def _mentions(b, bi, local):
     return False
 
 
+def _lookup_obligations(ctx, binc, eb, extra):
+    """Obligations of the table-search form of the extension lookup; returns [(bb, term)] of the search call
+    (what the stdin arm must not reach)."""
+    rows, cbi = _lookup_table(binc, eb)
+    finds = [(bb, t) for bb, t in eb.calls() if (fn_of(t) or {}).get("def") in ("std::iter::Iterator::find", "std::iter::Iterator::find_map")]
+    ctx.ob("table-searched-once", len(finds) == 1, site(eb), f"{len(finds)} Iterator::find over the table")
+    if len(finds) != 1:
+        return finds
+    fbb, ft = finds[0]
+    # front to back over the whole constant table
+    it = trace(eb, ft["args"][0], passthrough_extra=("core::slice::<impl [T]>::iter", "std::iter::IntoIterator::into_iter"))
+    whole = bool(it.origin and it.origin[0] == "const" and _const_rows(it.origin[1]) == rows) and (fn_of(ft) or {}).get("self_ty", "").startswith(("std::slice::Iter<", "std::array::IntoIter<"))
+    ctx.ob("search-covers-whole-table", whole, site(eb, fbb), "find runs over slice::iter() of the constant table" if whole else f"the search does not run over the plain table iterator ({(fn_of(ft) or {}).get('self_ty')})")
+    # the predicate compares the row's literal with the extension, ignoring ASCII case
+    pred_ok, from_ext, detail = False, False, "predicate closure not found"
+    for cid in (fn_of(ft) or {}).get("closures", []):
+        cb = binc.by_id.get(cid)
+        if cb is None:
+            continue
+        for cbb, ct in cb.calls():
+            cf = fn_of(ct) or {}
+            is_ci = cf.get("name") == "eq_ignore_ascii_case"
+            is_eq = cf.get("trait") == "std::cmp::PartialEq" and cf.get("name") == "eq"
+            if not (is_ci or is_eq) or len(ct["args"]) != 2:
+                continue
+            sides = [trace(cb, a, passthrough_extra=extra) for a in ct["args"]]
+            row_side = [x for x in sides if x.origin == ("arg", 2) and [st[1] for st in x.steps if st[0] == "field"][:1] == ["0"]]
+            cap_side = [x for x in sides if x.origin == ("arg", 1)]
+            if len(row_side) != 1 or len(cap_side) != 1:
+                detail = "the predicate does not compare the row's literal with the captured extension"
+                continue
+            upv = [st[1] for st in cap_side[0].steps if st[0] == "field"][:1]
+            lowered = is_ci or any(st[0] == "call" and ("to_ascii_lowercase" in st[1] or "to_lowercase" in st[1]) for st in cap_side[0].steps)
+            # the captured value in the parent: the closure aggregate's operand for that upvar
+            for bi2, blk in enumerate(eb.blocks):
+                for s_ in blk["stmts"]:
+                    if s_["k"] == "assign" and s_["rv"]["k"] == "aggregate" and s_["rv"].get("closure") == cid:
+                        names = cb.raw.get("upvars", [])
+                        idx = names.index(upv[0]) if upv and upv[0] in names else (0 if len(s_["rv"]["ops"]) == 1 else None)
+                        if idx is not None and idx < len(s_["rv"]["ops"]):
+                            pt = trace(eb, s_["rv"]["ops"][idx], passthrough_extra=extra + ("std::ops::Try::branch",))
+                            from_ext = bool(pt.origin and pt.origin[0] == "call" and (fn_of(pt.origin[2]) or {}).get("def") == "std::path::Path::extension")
+                            lowered = lowered or any(st[0] == "call" and ("to_ascii_lowercase" in st[1] or "to_lowercase" in st[1]) for st in pt.steps)
+            pred_ok = lowered
+            detail = "row literal compared with Path::extension() ignoring ASCII case" if lowered and from_ext else ("extension compared case-sensitively" if from_ext else "compared text does not derive from Path::extension() (last extension)")
+    ctx.ob("lowercased-before-compare:table", pred_ok and from_ext, site(eb, fbb), detail)
+    # the answer is the format of the row that was found
+    res = trace(eb, {"k": "copy", "p": {"l": 0, "pr": []}}, passthrough_extra=("std::option::Option::<T>::copied", "std::option::Option::<T>::cloned"))
+    ans_ok = False
+    for dbb, idx, kind, payload in eb.whole_defs(0):
+        if kind == "call" and (fn_of(payload) or {}).get("def") == "std::option::Option::<T>::map" and payload["args"]:
+            rt = trace(eb, payload["args"][0])
+            if rt.origin and rt.origin[0] == "call" and rt.origin[2] is ft:
+                for cid in (fn_of(payload) or {}).get("closures", []):
+                    cb = binc.by_id.get(cid)
+                    if cb:
+                        r0 = trace(cb, {"k": "copy", "p": {"l": 0, "pr": []}})
+                        if r0.origin == ("arg", 2) and [st[1] for st in r0.steps if st[0] == "field"][:1] == ["1"]:
+                            ans_ok = True
+    ctx.ob("answer-is-found-rows-format", ans_ok, site(eb), "the function returns the Format of the row the search found" if ans_ok else "the returned format is not the found row's second field")
+    return finds
+
+
 @rule("R14.2", 8, "extension table equals the manual and long help; literals lower-case and the extension is lower-cased; stdin has no extension", ["C14"])
 def r14_2(ctx):
     binc = ctx.bin
     ext = _extension_fn(binc)
     ctx.need(len(ext) == 1, "extension lookup not found")
-    eb, table, default = ext[0]
+    eb, table, default, form = ext[0]
     man = tables.parse_manual()
     want = {}
     for name, info in man["formats"].items():
@@ -761,9 +871,12 @@ def r14_2(ctx):
         f = fn_of(t) or {}
         if f.get("trait") == "std::cmp::PartialEq" and len(t["args"]) == 2 and t["args"][1].get("k") == "const" and "str" in t["args"][1]:
             cmps.append((bb, t))
-    ctx.ob("literal-comparisons-found", len(cmps) >= len(table), site(eb), f"{len(cmps)} literal comparison(s) in MIR for {len(table)} table row(s)")
     extra = ("std::option::Option::<T>::map", "std::option::Option::<T>::and_then", "to_ascii_lowercase", "to_lowercase", "std::string::String::as_str", "std::ffi::OsStr::to_str", "as_str")
-    for bb, t in cmps:
+    if form == "lookup":
+        cmps = _lookup_obligations(ctx, binc, eb, extra)
+    else:
+        ctx.ob("literal-comparisons-found", len(cmps) >= len(table), site(eb), f"{len(cmps)} literal comparison(s) in MIR for {len(table)} table row(s)")
+    for bb, t in (cmps if form == "match" else []):
         lit = t["args"][1]["str"]
         tr = trace(eb, t["args"][0], passthrough_extra=extra)
         from_ext = bool(tr.origin and tr.origin[0] == "call" and (fn_of(tr.origin[2]) or {}).get("def") == "std::path::Path::extension")
